@@ -182,6 +182,12 @@ func (c *verifBatchClient) Batch(remote string, bReq *batchRequest) (*BatchRespo
 	}
 	logAll("ok")
 	res := &BatchResponse{TransferAdapterName: "basic"}
+	switch e.env("adaptername", 3) {
+	case 1: // the server switches to another registered transfer adapter for this batch
+		res.TransferAdapterName = "alt"
+	case 2: // ... or names one that does not exist (the queue falls back to the default adapter)
+		res.TransferAdapterName = "nonexistent"
+	}
 	requestedAt := time.Now()
 	rel := "download"
 	if e.cfg.Upload {
@@ -390,6 +396,9 @@ func VerifRunQueue(cfg VerifCfg, ch VerifChooser) *VerifObs {
 			m.maxRetryDelay = defaultMaxRetryDelay
 		}
 		m.RegisterNewAdapterFunc("basic", dir, func(name string, d Direction) Adapter {
+			return newAdapterBase(nil, name, d, &verifImpl{e: e})
+		})
+		m.RegisterNewAdapterFunc("alt", dir, func(name string, d Direction) Adapter {
 			return newAdapterBase(nil, name, d, &verifImpl{e: e})
 		})
 		q = NewTransferQueue(dir, m, "origin", WithBatchSize(cfg.BatchSize), DryRun(cfg.DryRun))
